@@ -124,6 +124,14 @@ fn strings_for(lo: f64, hi: f64, rng: &mut Rng, n_rand: usize) -> Vec<String> {
     ] {
         v.push(s.to_string());
     }
+    // malformed text with multi-byte characters at every byte offset (error paths that echo or slice the input)
+    for n in 0..40usize {
+        v.push(format!("{}\u{00b0}W", "1".repeat(n)));
+        v.push(format!("{}\u{2212}5", "7".repeat(n)));
+        v.push(format!("{}.{}\u{00b0} W", n, "1".repeat(n)));
+    }
+    v.push("77.208591400000\u{00b0}W".to_string());
+    v.push("\u{1F54B}".repeat(9));
     for _ in 0..n_rand {
         let x = match rng.below(4) {
             0 => rng.range(lo - 1., hi + 1.),
